@@ -39,4 +39,15 @@ theorem redis_Writer_grow_eq (w : redis.Writer) (n : Int) (hn : 0 ≤ n ∧ n < 
   simp only [redis.Writer.grow, h1, makeBytes_ok (Int.natCast_nonneg _), Int.toNat_natCast, bind, Except.bind, hc, pure, Except.pure]
   simp [List.drop_replicate]
 
+/-- `writeByte` with room left: the byte is stored at the write position, which advances by one -/
+theorem redis_Writer_writeByte_room (w : redis.Writer) (b : Int) (hw : 0 ≤ w.w ∧ w.w < (w.buf.length : Int)) (hl : w.buf.length < 2 ^ 62) :
+    redis.Writer.writeByte w b = .ok { w with buf := w.buf.set w.w.toNat (byteOf b), w := w.w + 1 } := by
+  have h1 : ¬ (w.w ≥ len w.buf) := by simp [len_eq]; omega
+  have h2 : wrap .i64 (w.w + 1) = w.w + 1 := wrap_i64_id (by omega)
+  have h3 : setIdx w.buf w.w b = .ok (w.buf.set w.w.toNat (byteOf b)) := by
+    simp only [setIdx, hw, and_self, if_true, pure, Except.pure]
+  simp [redis.Writer.writeByte, h1, h2, h3, bind, Except.bind, pure, Except.pure]
+
+example : redis.Writer.writeByte ⟨[0, 0], 1, false⟩ 65 = .ok ⟨[0, 65], 2, false⟩ := by decide
+
 end NodisVerif.TranslatedTie
